@@ -184,7 +184,10 @@ def run_inprocess(d, run):
         _be.FileLoader.get_data = _get_data
     try:
         if not run.get("lazy_spy"):
-            import vf_spy18  # noqa: F401
+            try:
+                import vf_spy18  # noqa: F401
+            except BaseException as e:  # noqa: BLE001  (its helper module ph may be served from a wrong cache file)
+                return {"error": f"importing the typechecker module: {type(e).__name__}: {e}"}
 
         # a run with checking switched off while the modules are imported (JAXTYPING_DISABLE=1 / config.update); the
         # modules are observed after switching back on: instrumentation does not depend on the switch, only calls do
